@@ -18,13 +18,13 @@ pub struct Secrets {
     pub nonce: [u8; 12],
     pub exp: [u8; 12],
 }
-pub fn secrets_r<A: Aead<AeadImpl = IdealImpl>, KK: Kdf, MM: KemTrait>(c: &AeadCtxR<A, KK, MM>) -> Secrets {
+pub fn secrets_r<A: Aead<AeadImpl = IdealImpl<4>>, KK: Kdf, MM: KemTrait>(c: &AeadCtxR<A, KK, MM>) -> Secrets {
     let mut s = Secrets { key: c.verif_encryptor().key, nonce: [0; 12], exp: [0; 12] };
     s.nonce.copy_from_slice(c.verif_base_nonce());
     s.exp.copy_from_slice(c.verif_exporter_secret());
     s
 }
-pub fn secrets_s<A: Aead<AeadImpl = IdealImpl>, KK: Kdf, MM: KemTrait>(c: &AeadCtxS<A, KK, MM>) -> Secrets {
+pub fn secrets_s<A: Aead<AeadImpl = IdealImpl<4>>, KK: Kdf, MM: KemTrait>(c: &AeadCtxS<A, KK, MM>) -> Secrets {
     let mut s = Secrets { key: c.verif_encryptor().key, nonce: [0; 12], exp: [0; 12] };
     s.nonce.copy_from_slice(c.verif_base_nonce());
     s.exp.copy_from_slice(c.verif_exporter_secret());
@@ -42,7 +42,7 @@ pub fn enc_of<MM: KemTrait>(e: u16) -> MM::EncappedKey {
 }
 
 /// the sender's first ciphertext is rejected by the other side, and exports differ
-fn assert_cannot_open<A: Aead<AeadImpl = IdealImpl>, KK: Kdf, MM: KemTrait>(s: &mut AeadCtxS<A, KK, MM>, r: &mut AeadCtxR<A, KK, MM>) {
+fn assert_cannot_open<A: Aead<AeadImpl = IdealImpl<4>>, KK: Kdf, MM: KemTrait>(s: &mut AeadCtxS<A, KK, MM>, r: &mut AeadCtxR<A, KK, MM>) {
     let mut buf: [u8; 2] = kani::any();
     let tag = s.seal_in_place_detached(&mut buf, &[]).unwrap();
     assert!(matches!(r.open_in_place_detached(&mut buf, &[], &tag), Err(HpkeError::OpenError)));
